@@ -1,7 +1,9 @@
 package main
 
 import (
+	"bytes"
 	"crypto/sha256"
+	"encoding/binary"
 	"encoding/hex"
 	"errors"
 	"fmt"
@@ -32,9 +34,9 @@ type Scenario struct {
 	PaySeed uint64 `json:"pay_seed"`
 	// recv: how the scripted peer cuts its octet stream into writes.
 	// send: the sizes of the scripted peer's reads (Segs used cyclically).
-	Chunk int   `json:"chunk,omitempty"` // fixed size; 0 = Segs, or whole / 256 KiB if Segs is empty
-	Segs  []int `json:"segs,omitempty"`  // recv: ascending stream offsets at which a new write starts
-	Gap   string `json:"gap,omitempty"`  // between the peer's writes: "" | yield | sleep
+	Chunk int    `json:"chunk,omitempty"` // fixed size; 0 = Segs, or whole / 256 KiB if Segs is empty
+	Segs  []int  `json:"segs,omitempty"`  // recv: ascending stream offsets at which a new write starts
+	Gap   string `json:"gap,omitempty"`   // between the peer's writes: "" | yield | sleep
 	// recv: the peer ends the connection after this many octets of the stream (-1: after all of it).
 	Cut    int    `json:"cut"`
 	CutHow string `json:"cut_how,omitempty"` // close (pipe close / TCP FIN) | reset (TCP RST)
@@ -57,36 +59,45 @@ func lenClass(n int) string {
 	return "le64k"
 }
 
+var randTable = func() []byte {
+	t := make([]byte, 1<<20+4099)
+	g := rand.NewPCG(0xC11, 0x1002)
+	for j := 0; j+8 <= len(t); j += 8 {
+		binary.LittleEndian.PutUint64(t[j:], g.Uint64())
+	}
+	return t
+}()
+
+var ffTile = bytes.Repeat([]byte{0xFF}, 4096)
+var hdrTile = bytes.Repeat([]byte{0x00, 0x00, 0x00, 0x02, 0x41, 0x42, 0x00, 0x01, 0x00, 0x00}, 400)
+
 // mkPayload is a deterministic function of (seed, index, length, fill).
 func mkPayload(seed uint64, i, n int, fill string) []byte {
 	b := make([]byte, n)
+	tile := func(pat []byte) {
+		for j := 0; j < n; {
+			j += copy(b[j:], pat)
+		}
+	}
 	switch fill {
 	case "zero":
 	case "ff":
-		for j := range b {
-			b[j] = 0xFF
-		}
+		tile(ffTile)
 	case "hdr":
 		// looks like a run of well-formed little session messages, so that a
 		// receiver that lost frame synchronisation fabricates messages instead
 		// of stumbling over an unknown TYPE
-		pat := []byte{0x00, 0x00, 0x00, 0x02, 0x41, 0x42, 0x00, 0x01, 0x00, 0x00}
-		for j := range b {
-			b[j] = pat[j%len(pat)]
-		}
+		tile(hdrTile)
 	default:
-		g := rand.NewPCG(seed, uint64(i)*0x9E3779B97F4A7C15+uint64(n))
-		j := 0
-		for ; j+8 <= n; j += 8 {
-			v := g.Uint64()
-			b[j], b[j+1], b[j+2], b[j+3], b[j+4], b[j+5], b[j+6], b[j+7] = byte(v), byte(v>>8), byte(v>>16), byte(v>>24), byte(v>>32), byte(v>>40), byte(v>>48), byte(v>>56)
-		}
-		if j < n {
-			v := g.Uint64()
-			for ; j < n; j++ {
-				b[j] = byte(v)
-				v >>= 8
-			}
+		// a window of a fixed pseudo-random table; the offset depends on
+		// (seed, index, length), the table does not (copying is what keeps
+		// megabytes of payload cheap under the race detector)
+		h := seed*0x9E3779B97F4A7C15 ^ uint64(i)*0xC2B2AE3D27D4EB4F ^ uint64(n)*0x165667B19E3779F9
+		h ^= h >> 29
+		off := int(h % uint64(len(randTable)-1))
+		for j := 0; j < n; {
+			j += copy(b[j:], randTable[off:])
+			off = 0
 		}
 	}
 	return b
@@ -352,16 +363,15 @@ func short(b []byte) string {
 
 func (e *env) runRecv(sc *Scenario, st *runState) {
 	ps := sc.payloads()
-	var stream []byte
-	starts := make([]int, len(ps))
-	for i, p := range ps {
-		f, ok := refEncode(p)
+	total, starts := streamLen(sc.Lens)
+	stream := make([]byte, 0, total)
+	for _, p := range ps {
+		h, ok := refEncodeHeader(len(p))
 		if !ok {
 			e.rec.Inconclusive(fmt.Sprintf("generator produced an unframeable payload for a recv scenario (%d)", len(p)))
 			return
 		}
-		starts[i] = len(stream)
-		stream = append(stream, f...)
+		stream = append(append(stream, h[:]...), p...)
 	}
 	end := len(stream)
 	if sc.Cut >= 0 && sc.Cut < end {
